@@ -82,6 +82,16 @@ pub fn run(ctx: &Ctx) -> Outcome {
         run_and_report(ctx, &rx_halfclosed(ctx.tier, d), &mut out);
         run_and_report(ctx, &mtu(ctx.tier, 700, None, None, 1, ctx.tier.pick(5, 7)), &mut out);
     }
+    // the same wake-up obligations when the halves and the connection run on different threads:
+    // every interleaving of their critical sections, from every state a few actions deep
+    {
+        use super::solo_drivers::*;
+        use crate::solo::threads::*;
+        let tc = ThreadsCfg { base_depth: ctx.tier.pick(1, 3), preemption_bound: ctx.tier.pick(Some(2), Some(3)), max_runs_per_case: ctx.tier.pick(2_000, 100_000), with_suffix: false, triples: true };
+        explore_threads(ctx, &tx_flow(ctx.tier, 8, 32, 0), &tc, &mut out);
+        explore_threads(ctx, &rx(ctx.tier, 2, vec![MSS], 0), &tc, &mut out);
+        explore_threads(ctx, &close(ctx.tier, 0), &tc, &mut out);
+    }
     out.rule = "C02: every plan of <= d drop/dup/delay deviations (d below the retransmission limit, hence fair) must complete within the horizon; loss-free runs additionally satisfy the promptness clause".into();
     out.assumptions.push("liveness is decided as bounded liveness: virtual-time horizon 20 s with the inactivity timeout configured to 30 s".into());
     out
